@@ -263,6 +263,31 @@ claim(
     "DESIGN.md section 5 / C17",
 )
 
+# additions made while strengthening against the seeded changes (DESIGN.md section 11.3)
+ADDENDA = {
+    "C01": " Also: the second trajectory of an HMC take_step (retry) with its own energies; a whole ensemble iteration walker after walker against CURRENT positions; lattice kernels from states "
+           "installed by replace_last; a half-integer lattice whose whole-number states are passed with an integer dtype; the attempt-level oracle after save -> load.",
+    "C03": " Also: burned/thinned read-outs; limits set mid-run; integer-dtype starts; a hand-made in-process exchange through get_last/replace_last after every interleaving; fault enumeration "
+           "(the user's posterior raises at its k-th evaluation, the exception is caught, invariant and usability afterwards).",
+    "C04": " The limit state machine includes a refused set_boundaries call (lower >= upper), which must leave the limits in force unchanged.",
+    "C08": " Also: chains of unequal initial length, ladders with equal temperatures (a certain exchange must be performed), exact one-step kernels from installed lattice states.",
+    "C09": " Also: compressed saves, and a second save of the original after replace_last.",
+    "C14": " Fractions 0 and 1 included.",
+    "C15": " Also: ParallelTempering.run_for under the virtual clock, budgets with days and fractions of a second, steps that cannot be completed within max_attempts (exactly m samples or a loud failure), identically seeded chains in a pool.",
+    "C02": " Also: noise terms in every position of a sum, kernel-level cross-covariance oracle, hyper-parameter regimes outside the default bounds, data far from the origin, call histories on one regressor with in-place theta.",
+    "C05": " Also: unusual container forms under a 'reject or be right' oracle.",
+    "C06": " Also: object-reuse histories (components reused across several JointPriors and Posteriors), 200/1000-draw initial guesses.",
+    "C10": " Also: extreme hyper-parameter regimes, every given/not-given mask of user bounds, histories with data changes.",
+    "C11": " Also: selection through a real Pool (n_processes 1..3), two-model interleavings, container forms of data and hyper-parameters ('reject or be right'), large-n (100..600 points) value vs gradient path against a float64 reference.",
+    "C12": " Also: bulk-plus-outlier samples (range/bandwidth in the thousands), call histories with in-place changes of the evaluation array.",
+    "C13": " Also: call histories with in-place modification between calls, 49 container/dtype/layout forms, full-range integer dtypes.",
+    "C16": " Also: in-place histories for query and hyper-parameter arrays, composite kernels ('may raise NotImplementedError, but if it returns it must be right').",
+    "C17": " Also: interleavings of two/three inverters of every construction style, data/error units 1e-9..1e9.",
+    "C18": " Also: repeated measurements at existing locations, bounds in every container form, dtype/container forms of initial and added data.",
+    "C19": " Also: arrays of 1..1000 points in three orders vs point-wise evaluation.",
+    "C20": " Also: narrow conditionals (1e-2..1e-8 of the bounds) at 14 positions with a resolution oracle.",
+}
+
 ALL = [f"C{i:02d}" for i in range(1, 21)]
 PENDING_REASON = "check under construction in this session (design in DESIGN.md section 5); not yet claimed"
 
@@ -281,7 +306,7 @@ def build():
                 "evidence_file": f"/verif/evidence/{pid}.json",
                 "replay_cmd_template": "cd /verif && /venv/bin/python -m mc.replay {path}",
                 "engine": c["engine"],
-                "level_claimed": {"category": c["category"], "text": c["text"], "design_ref": c["ref"]},
+                "level_claimed": {"category": c["category"], "text": c["text"] + ADDENDA.get(pid, ""), "design_ref": c["ref"] + " and 11"},
                 "level_note": c["note"],
                 "technique": c["technique"],
             }
